@@ -57,3 +57,22 @@ package vm
 //@   ensures[marked] result == nil ==> vm.context.received == store(old(vm.context.received), block.FromBlockHash, true)
 //@   ensures[rejected-unchanged] result != nil ==> vm.context.balance == old(vm.context.balance)
 //@   modifies vm.context.balance, vm.context.received
+
+// ---- C16: the supervisor is the only producer of verified transactions ---------------------------------------------------
+// Ghost flags: a transaction object is `verified` only as the result of a successful ApplyBlock / ApplyMomentum, i.e. after
+// full verification and re-execution of exactly that block / momentum. (The bodies are specified separately; here the
+// contracts are assumed and name what the callers of the supervisor may rely on. They modify the delivered block /
+// momentum objects and the ledger, not the slices the caller iterates over.)
+//@ func Supervisor.ApplyBlock(s, block) -> (tx, err)
+//@   trusted
+//@   requires block != nil
+//@   ensures err == nil ==> tx != nil && fresh(tx) && tx.verified && tx.Block == block
+//@   ensures err != nil ==> tx == nil
+//@   modifies block.*
+
+//@ func Supervisor.ApplyMomentum(s, detailed) -> (tx, err)
+//@   trusted
+//@   requires detailed != nil && detailed.Momentum != nil
+//@   ensures err == nil ==> tx != nil && fresh(tx) && tx.verified && tx.Momentum == detailed.Momentum
+//@   ensures err != nil ==> tx == nil
+//@   modifies detailed.Momentum.*
